@@ -151,8 +151,8 @@ def correspondence(run, cases, variants):
     """Model (run + serialize_value under each option set) against the library, ordered members compared."""
     ccases = []
     for c in cases:
-        if not c.get("created_hint", True):
-            continue
+        if c.get("derive"):
+            continue        # derived objects are not inputs of the JSON-level model
         opts = [o for o in c["opts"] if "ensure_ascii" not in o]
         ccases.append({"op": "parse" if c["route"] == "parse" else "construct", "cid": c["cid"], "data": c["data"],
                        "allow": c.get("allow", False), "opts": opts})
@@ -229,14 +229,24 @@ def gen_cases(run, per_class):
             if custom:
                 inject_custom(gen, cid, o)
             route = "parse" if r.random() < 0.6 else "construct"
-            cases.append({"route": route, "cid": cid, "data": o, "allow": custom or r.random() < 0.15,
-                          "opts": pick_opts(r, full=(i % 5 == 0))})
+            case = {"route": route, "cid": cid, "data": o, "allow": custom or r.random() < 0.15,
+                    "opts": pick_opts(r, full=(i % 5 == 0))}
+            cases.append(case)
+            # objects the library derives from that object's Python values (not from JSON-like data)
+            if r.random() < 0.5:
+                how = r.choice(["deepcopy", "rebuild", "other-version", "new-version"])
+                cases.append(dict(case, derive=how, opts=CORE_OPTS[:4] + [r.choice(ALL_OPTS)]))
     return cases
 
 
 FIXED_CASES = [
     # an empty 2.1 bundle (constructible; its text has no "objects")
     {"route": "construct", "cid": "2.1/Bundle", "data": {"id": "bundle--00000000-0000-4000-8000-000000000001"},
+     "allow": False, "opts": [{}, {"pretty": True}]},
+    # a 2.0 statement marking whose `created` has a fraction, rebuilt from its own values
+    {"route": "parse", "cid": "2.0/MarkingDefinition", "derive": "deepcopy",
+     "data": {"type": "marking-definition", "id": "marking-definition--00000000-0000-4000-8000-000000000003",
+              "created": "2023-03-28T08:24:21.1Z", "definition_type": "statement", "definition": {"statement": "x"}},
      "allow": False, "opts": [{}, {"pretty": True}]},
     # a year below 1000 (C15's zero padding)
     {"route": "parse", "cid": "2.1/Identity",
@@ -247,7 +257,11 @@ FIXED_CASES = [
 
 
 def classify(case, res, f):
-    """Narrow finding ids for defects of the unchanged code that other properties own."""
+    """Narrow finding ids for defects of the unchanged code."""
+    d = case["data"]
+    if (f["kind"] == "reserialize-differs" and case["cid"] == "2.0/MarkingDefinition" and case.get("derive")
+            and isinstance(d.get("created"), str) and "." in d["created"] and d.get("definition_type") != "tlp"):
+        return "C01-v20-marking-created-precision-lost-on-rebuild"
     if f["kind"] == "reparse-refused" and case["cid"] == "2.1/Bundle" and "objects" not in case["data"]:
         return "C01-empty-bundle-21-not-reparsed"
     return None
@@ -275,7 +289,8 @@ def check(run):
             hist["not-created:" + str(res.get("err"))] = hist.get("not-created:" + str(res.get("err")), 0) + 1
         for f in res.get("fails", []):
             run.violations.append(Violation(
-                "%s (%s route, %s, options %s): %s" % (f["kind"], c["route"], c["cid"], json.dumps(f["opts"]), json.dumps(f["detail"])[:300]),
+                "%s (%s route%s, %s, options %s): %s" % (f["kind"], c["route"], (" then " + c["derive"]) if c.get("derive") else "",
+                                                       c["cid"], json.dumps(f["opts"]), json.dumps(f["detail"])[:300]),
                 {"case": dict(c, opts=[f["opts"]] + ([{"include_optional_defaults": True}, {}] if f["kind"] in (
                     "non-default-property-omitted", "defaults-option-changes-value", "options-disagree") else [])),
                  "kind": f["kind"]},
